@@ -314,8 +314,24 @@ def signatures(case):
     return sig
 
 
+def case_size(case):
+    flat = []
+
+    def walk(t):
+        if isinstance(t, list) and (not t or isinstance(t[0], list) or len(t) != 2):
+            for u in t:
+                walk(u)
+        else:
+            flat.append(t)
+    walk(case["pts"])
+    nonint = sum(1 for p in flat for v in p if v is not None and v != round(v))
+    return (len(flat), len(case["pts"]), case["H"] + case["W"], case["stride"], 0 if case["sigma"] == 1.0 else 1,
+            nonint)
+
+
 def shrink(case, still_fails):
-    """Greedy structural shrink keeping `still_fails(case)` true."""
+    """Greedy structural shrink keeping `still_fails(case)` true; every accepted step strictly
+    decreases `case_size` (lexicographic), so it terminates."""
     import copy
     cur = copy.deepcopy(case)
     changed = True
@@ -325,13 +341,14 @@ def shrink(case, still_fails):
         v = cur["variant"]
         for b in range(len(cur["pts"])):          # drop an animal / node entry
             for k in range(len(cur["pts"][b])):
-                if v in ("cm3", "dp_cm_inst", "cent", "dp_cent") or len(cur["pts"]) == 1 or True:
-                    c = copy.deepcopy(cur)
-                    # keep the batch rectangular: drop index k in every sample
-                    for bb in range(len(c["pts"])):
-                        if k < len(c["pts"][bb]):
-                            del c["pts"][bb][k]
-                    cands.append(c)
+                c = copy.deepcopy(cur)
+                # keep the batch rectangular: drop index k in every sample
+                for bb in range(len(c["pts"])):
+                    if k < len(c["pts"][bb]):
+                        del c["pts"][bb][k]
+                if "num_instances" in c:
+                    c["num_instances"] = min(c["num_instances"], len(c["pts"][0]))
+                cands.append(c)
         if len(cur["pts"]) > 1 and not signatures(cur):
             c = copy.deepcopy(cur); c["pts"] = c["pts"][:1]; cands.append(c)
         for key, small in (("H", [4, 8]), ("W", [4, 8]), ("stride", [1, 2]), ("sigma", [1.0])):
@@ -350,7 +367,7 @@ def shrink(case, still_fails):
             cands.append(c)
         for c in cands:
             try:
-                if c != cur and still_fails(c):
+                if case_size(c) < case_size(cur) and still_fails(c):
                     cur = c
                     changed = True
                     break
@@ -455,7 +472,7 @@ def main(chk: Check):
         {"variant": "multi", "H": 6, "W": 6, "stride": 2, "sigma": 1.0, "n_nodes": 3, "num_instances": 0,
          "pts": [[]]},
     ]
-    n_rand = chk.n(260, 4000)
+    n_rand = chk.n(800, 8000)
     for k in range(n_rand):
         cases.append(gen_case(rng, VARIANTS[k % len(VARIANTS)]))
 
